@@ -31,6 +31,7 @@ package static
 //@   at call 1 of Atoi after set rgPair = (result1 == nil)
 //@   at return all before assert[416-only-for-an-unsatisfiable-range] res.StatusCode == 416 && old(res.StatusCode) != 416 && rgPair ==> rgStart > rgEnd || rgStart < 0 || rgStart >= rgSize
 //@   at call 0 of Bytes before assert[multipart-body-is-complete-before-its-length-is-taken] mpClosed
+//@   at call all of Bytes before assert[the-multipart-body-is-assembled-in-a-buffer-of-this-call] fresh(self)
 //@   at call 1 of Bytes before assert[multipart-body-is-complete-before-its-bytes-are-taken] mpClosed
 //@   modifies joinRoot, joinRel, joinRes, mpClosed, rgStart, rgEnd, rgPair, rgSize
 //@   noframe
@@ -47,3 +48,12 @@ package static
 //@   loop 0 invariant[allocated] forall k int :: 0 <= k && k < len(ranges) ==> allocated(ranges[k])
 //@   loop 0 invariant[within-content] forall k int :: 0 <= k && k < len(ranges) ==>
 //@        0 <= ranges[k][0] && ranges[k][0] <= ranges[k][1] && ranges[k][1] < info.Size()
+
+// The root is stored cleaned: an empty root means the working directory ("."), never the file system root.
+//@ ghost var nmCleaned string
+//@ func NewModifier
+//@   serves C20
+//@   modifies nmCleaned
+//@   at call 0 of Clean before assert[the-configured-root-is-what-gets-cleaned] arg0 == rootPath
+//@   at call 0 of Clean after set nmCleaned = result
+//@   ensures[root-is-stored-cleaned] result != nil && fresh(result) && result.rootPath == nmCleaned && result.explicitPaths != nil && len(result.explicitPaths) == 0
